@@ -31,7 +31,7 @@ var (
 )
 
 func freePort() int {
-	for try := 0; try < 50; try++ {
+	for try := 0; try < 200; try++ {
 		l, err := net.Listen("tcp", "127.0.0.1:0")
 		if err != nil {
 			continue
@@ -46,7 +46,7 @@ func freePort() int {
 			return p
 		}
 	}
-	panic("no free port")
+	return 0 // the child will fail to listen; the case is then retried / inconclusive
 }
 
 type caseResult struct {
@@ -56,15 +56,28 @@ type caseResult struct {
 	Recs         []gtRec
 	Events       map[string][]tEvent
 	Panic        string
+	Wall         time.Duration
 }
 
 func runCase(c *Case) *caseResult {
 	res := &caseResult{Case: c}
 	dir := common.Scratch("c18")
-	defer os.RemoveAll(dir)
+	if keep := os.Getenv("C18_KEEP"); keep != "" {
+		fmt.Println("keeping", dir)
+	} else {
+		defer os.RemoveAll(dir)
+	}
 	for i := range c.Archs {
 		c.Archs[i].NetPort, c.Archs[i].RnetPort = freePort(), freePort()
 	}
+	defer func() {
+		portMu.Lock()
+		for i := range c.Archs {
+			delete(portsUsed, c.Archs[i].NetPort)
+			delete(portsUsed, c.Archs[i].RnetPort)
+		}
+		portMu.Unlock()
+	}()
 	buf, _ := json.Marshal(c)
 	casePath, gtPath, traceDir := filepath.Join(dir, "case.json"), filepath.Join(dir, "gt.jsonl"), filepath.Join(dir, "trace")
 	if err := os.WriteFile(casePath, buf, 0o644); err != nil {
@@ -76,6 +89,7 @@ func runCase(c *Case) *caseResult {
 		env = append(env, "PGO_DISRUPT_CONCURRENCY="+c.Disrupt)
 	}
 	cr := common.RunChild("", "case", dir, env, 90*time.Second, "child", casePath, gtPath)
+	res.Wall = cr.Wall
 	recs, complete, err := readGT(gtPath)
 	if err != nil {
 		res.Inconclusive = fmt.Sprintf("no ground-truth log (exit %d): %v: %s", cr.ExitCode, err, tailStr(cr.Output, 400))
@@ -144,15 +158,24 @@ func main() {
 		replay(r)
 		return
 	}
-	total := r.Pick(60, 3000)
+	total := r.Pick(48, 600)
 	workers := r.Pick(8, 16)
 	rng := r.Rand("cases")
 	cases := fixedCases()
+	sysRng := r.Rand("systems")
+	for k := 0; k < r.Pick(4, 40); k++ { // shipped generated systems in their shipped wirings
+		cases = append(cases, systemCase([]string{"dqueue", "locksvc"}[k%2], sysRng))
+	}
 	for len(cases) < total {
 		cases = append(cases, genCase(rng, 0))
 	}
 	for i, c := range cases {
 		c.ID = i
+	}
+	if only := os.Getenv("C18_ONLY"); only != "" { // development aid: run a single case of the list
+		var k int
+		fmt.Sscan(only, &k)
+		cases = cases[k : k+1]
 	}
 
 	var mu sync.Mutex
@@ -161,6 +184,7 @@ func main() {
 	var sigs common.Distinct
 	samples := &common.SampleKeeper{N: 6}
 	evaluated, nontrivial := 0, 0
+	var childWall, childWallMax time.Duration
 	shapes := map[string]int{}
 	edgeCases := map[string]int{}
 
@@ -193,6 +217,10 @@ func main() {
 		}
 		evaluated++
 		st := res.Verdict.Stats
+		childWall += res.Wall
+		if res.Wall > childWallMax {
+			childWallMax = res.Wall
+		}
 		shapes[c.Shape]++
 		agg.Events += st.Events
 		agg.AbortEvents += st.AbortEvents
@@ -208,6 +236,7 @@ func main() {
 		agg.HookEventsCompared += st.HookEventsCompared
 		agg.UnloggedAttempts += st.UnloggedAttempts
 		agg.UnidentifiedReads += st.UnidentifiedReads
+		agg.DuplicateDeliveries += st.DuplicateDeliveries
 		if st.MaxHops > agg.MaxHops {
 			agg.MaxHops = st.MaxHops
 		}
@@ -242,7 +271,8 @@ func main() {
 		"length_reads": agg.LengthReads, "length_messages_identified": agg.LengthMsgsIdentified,
 		"elements_compared_with_resource_calls": agg.WrapperElemsCompared, "events_compared_with_inflight_elements": agg.HookEventsCompared,
 		"attempts_ending_in_hard_error_not_logged": agg.UnloggedAttempts, "reads_whose_writer_has_no_event": agg.UnidentifiedReads,
-		"abort_kinds": agg.AbortKinds,
+		"abort_kinds": agg.AbortKinds, "length_or_positional_identifications_skipped_because_of_duplicate_deliveries": agg.DuplicateDeliveries,
+		"child_wall_total_s": childWall.Seconds(), "child_wall_max_s": childWallMax.Seconds(),
 	}
 	r.Finish(common.Coverage{
 		Evaluations:        evaluated,
